@@ -10,6 +10,7 @@ requests
   setpoints <p> <xhex>:<yhex>,…   `model.points["p<p>"] = [[x,y],…]` (no cache reset — a plain dictionary write)
   eval <n> <k>                    -> value hex | none
   memo                            -> sorted `n.k=hex` list
+  peek <n> <k>                    -> fresh value (no memo consulted, state untouched) hex | none
   conc <reqs> <sched>             reqs: threads separated by `|`, each `n.k,n.k,…`; sched: comma list of thread
                                   ids, each entry = "run that thread up to and including its next access to the memo"
                                   -> events `;` per-thread hand-out logs `;` final memo `;` finished flag
@@ -230,6 +231,12 @@ def stepLine (d : DS) (line : String) : DS × String :=
            match r with | some v => hexOf v | none => "none")
       | _, _ => (d, "bad-op")
   | ["memo"] => (d, memoCanon d.s.memo)
+  | ["peek", n, k] => match n.toNat?, k.toNat? with
+      -- the value of element n at grid index k under the current definitions, computed WITHOUT any memo (the fresh
+      -- value); the state is not touched.  Used to check that every entry of the real memo is a fresh value.
+      | some n, some k =>
+          (d, match query fOps { d.s with memo := [] } n k 100000 with | some v => hexOf v | none => "none")
+      | _, _ => (d, "bad-op")
   | ["conc", reqs, sched] => match parseReqs reqs, parseNats sched with
       | some reqs, some sched =>
           let sys := sysOf (fOps.withLk d.s.lk) 0.0 d.s.body oracleF
